@@ -143,7 +143,15 @@ def run(ctx, res):
         res.extra["exhaustive_subspaces"] = [f"all {len(xs)} histories of length <= 4 (asyncio 2.0, 2.2) / <= 3 (asyncio other versions, threaded all versions) over "
                                              "gwcheck.SMALL_ALPHABET, 5 versions"]
         cases = cases + xs
-    recs = gwcheck.run_cases(ctx, res, cases, MONITORS, SCOPE, "c05")
+    # a third of the longer histories: persistence and a clean stop + start in the middle
+    import shutil
+    from harness.gen import scenarios
+    scenarios.with_restarts(ctx, cases, "c05")
+    root = scenarios_a.assign_persist(cases, "c05", lambda i, c: c.pop("_fmt", None))
+    try:
+        recs = gwcheck.run_cases(ctx, res, cases, MONITORS, SCOPE, "c05")
+    finally:
+        shutil.rmtree(root, ignore_errors=True)
     if ctx.model is not None:
         items = [(i, gwrun.VERSIONS.index(r["case"]["cfg"]["ver"]), emitted_strings(r["impl"])) for i, r in enumerate(recs)]
         bad, n = spec_check(ctx, items)
